@@ -300,10 +300,10 @@ theorem parseFormulaXls_frame (ctx : Ctx) (e : Expr) (harity : e.arityOk) (hwf :
   unfold parseFormulaXls frameXls
   generalize hb : encodeXls (toRpn e) = body at *
   have hge : (toRpn e).length ≤ body.length := by rw [← hb]; exact encodeXls_length_ge _
-  have h2 : need (le16 body.length ++ body) 2 = .ok () := by
-    rw [show (2 : Nat) = 0 + 2 from rfl, need_16, need_zero]
-  have h3 : need (le16 body.length ++ body) (2 + body.length) = .ok () := by
-    rw [Nat.add_comm, need_16]; simp [need]
+  have h2 : needLen "formula" (le16 body.length ++ body) 2 = .ok () := by
+    simp [needLen, le16]
+  have h3 : needLen "formula" (le16 body.length ++ body) (2 + body.length) = .ok () := by
+    simp [needLen, le16]; omega
   have h4 : ((le16 body.length ++ body).drop 2).take body.length = body := by
     rw [show (2 : Nat) = 0 + 2 from rfl, drop_16]; simp
   simp only [h2, u16_le16 _ _ hlen, h3, h4, Res.bind_ok]
